@@ -83,6 +83,7 @@ def main(argv=None):
                 ok = True
                 for _ in range(2):
                     try:
+                        env.reset_process_state()
                         again = mod.replay(doc)
                     except Exception:
                         traceback.print_exc()
@@ -130,6 +131,8 @@ def summary(cov):
 def do_replay(pid, mod, path):
     doc = json.load(open(path))
     try:
+        env.load()
+        env.reset_process_state()
         res = mod.replay(doc)
     finally:
         env.cleanup_scratch()
